@@ -95,6 +95,20 @@ Proof.
   destruct (Hch _ A6) as [B1 B2]. cbn [fst snd] in B2. auto.
 Qed.
 
+Lemma other_method_needs_secret ops h s : exec H cf ops = (h, s) ->
+  forall h1 e h2 pl f cr c uri ver t q cl,
+    h = h1 ++ e :: h2 -> e_op e = TokenCode pl f cr (Some c) uri ver -> e_out e = OTokens t ->
+    code_req (e_pre e) c = Some q -> find_client cf (q_client q) = Some cl -> c_auth cl = AM_Other ->
+    cr_assert cr = None /\ cred_id_sec cr = (q_client q, c_secret cl).
+Proof.
+  intros Hex h1 e h2 pl f cr c uri ver t q cl Heq Hop Hout Hcq Hf Ha.
+  apply exec_reach in Hex. destruct (reach_split H cf h s Hex h1 e h2 Heq) as [_ Hstep].
+  apply step_trans in Hstep. rewrite Hop, Hout in Hstep.
+  apply trans_code_inv in Hstep as [cd [q2 [c2 [[= <-] [Hcr2 [_ [Hp _]]]]]]].
+  rewrite Hcq in Hcr2. injection Hcr2 as <-.
+  eapply cred_proves_other; eauto.
+Qed.
+
 Lemma single_use ops h s : exec H cf ops = (h, s) ->
   forall h1 e1 h2 e2 h3 c pl1 f1 cr1 u1 v1 pl2 f2 cr2 u2 v2,
     h = h1 ++ e1 :: h2 ++ e2 :: h3 ->
